@@ -27,7 +27,7 @@ MAX_STEPS = 20000
 # ------------------------------------------------------------------------------------------------
 
 class Build:
-    __slots__ = ('i', 'pay', 'outcome', 'phase', 'claims', 'selecting', 'task', 'tx', 'inputs', 'error',
+    __slots__ = ('i', 'pay', 'outcome', 'phase', 'claims', 'selecting', 'releasing', 'task', 'tx', 'inputs', 'error',
                  'cancel_phase', 'net')
 
     def __init__(self, i, pay, outcome):
@@ -35,6 +35,7 @@ class Build:
         self.phase = 'new'       # new -> building -> held | refused | failed | releasing -> released | cancelled
         self.claims = set()      # txoids get_spendable_utxos handed to this build and it has not given up
         self.selecting = 0       # inside ledger.get_spendable_utxos
+        self.releasing = 0       # inside ledger.release_outputs
         self.task = None
         self.tx = None
         self.inputs = None
@@ -72,8 +73,10 @@ def task_position(task):
 
 def describe(v, depth=0):
     """Identity-free description of a value held in a coroutine frame, a job or a future result."""
-    if v is None or isinstance(v, (bool, int, float, str)):
+    if v is None or isinstance(v, (bool, int, str)):
         return v
+    if isinstance(v, float):
+        return 'float'      # only perf_counter() readings of the lock/db metrics live in these frames
     if isinstance(v, (bytes, bytearray, memoryview)):
         b = bytes(v)
         return b if len(b) <= 40 else ('bytes', len(b), hashlib.blake2b(b, digest_size=8).hexdigest())
@@ -185,6 +188,22 @@ def execute(case, chooser, visited=None, rolling=None):
             return spendables
         ledger.get_spendable_utxos = observed_gsu
 
+        # ... and what each build gives back: a claim ends when its holder starts to release it
+        orig_release = ledger.release_outputs
+
+        async def observed_release(txos):
+            txos = list(txos)
+            b = by_task.get(asyncio.current_task())
+            if b is None:
+                return await orig_release(txos)
+            b.claims -= {t.id for t in txos}
+            b.releasing += 1
+            try:
+                return await orig_release(txos)
+            finally:
+                b.releasing -= 1
+        ledger.release_outputs = observed_release
+
         orig_broadcast = h.network.broadcast
 
         def observed_broadcast(raw_hex):
@@ -248,7 +267,7 @@ def execute(case, chooser, visited=None, rolling=None):
         def canon():
             lock = ledger._utxo_reservation_lock
             wl = ledger.db.db.write_lock
-            return (tuple((b.phase, tuple(sorted(b.claims)), b.selecting) for b in builds),
+            return (tuple((b.phase, tuple(sorted(b.claims)), b.selecting, b.releasing) for b in builds),
                     tuple(sorted(h.reserved())), lock.locked(), len(lock._waiters or ()),
                     wl.locked(), len(wl._waiters or ()),
                     tuple(j.state for j in loop.jobs), sum(1 for hd in loop._ready if not hd._cancelled),
@@ -332,7 +351,7 @@ def execute(case, chooser, visited=None, rolling=None):
                           describe(j.result), type(j.exc).__name__) for j in loop.jobs)
             lockq = tuple((lname, lock.locked(), tuple((waits.get(id(w)), w.done()) for w in (lock._waiters or ())))
                           for lname, lock in locks)
-            hv = tuple((b.phase, tuple(sorted(b.claims)), b.selecting, b.net, b.cancel_phase, b.task is not None)
+            hv = tuple((b.phase, tuple(sorted(b.claims)), b.selecting, b.releasing, b.net, b.cancel_phase, b.task is not None)
                        for b in builds)
             net = tuple((n, fut.done()) for n, fut, raw in h.network.pending)
             return (tuple(tdesc), tuple(ready), jobs, lockq, hv, net, tuple(sorted(h.reserved())), cancelled[0],
@@ -352,7 +371,8 @@ def execute(case, chooser, visited=None, rolling=None):
                 flag({'kind': 'held-output-not-reserved', 'strategy_is_sqlite': case['strategy'] == 'sqlite'},
                      f'output {sorted(union - reserved)[0]} is held by a build but is_reserved = 0: other builds may '
                      f'select it (strategy {case["strategy"]})')
-            in_flux = any(b.selecting or (b.phase in ('releasing', 'cancelled') and not b.task.done()) for b in builds)
+            in_flux = any(b.selecting or b.releasing or (b.phase in ('releasing', 'cancelled') and not b.task.done())
+                          for b in builds)
             if not in_flux and not cancelled[0] and reserved != union:
                 flag({'kind': 'reserved-set-differs-from-held', 'extra': bool(reserved - union)},
                      f'no build is selecting or releasing, yet is_reserved ({len(reserved)} rows) != held inputs '
@@ -533,42 +553,58 @@ def gen_cases(tier):
                                   'outcomes': list(ov), 'cancel': cancel, 'late': late, 'bound': bound,
                                   'cross_check': cross_check})
 
-    plain = ['sqlite', 'prefer_confirmed', 'random_draw'] if quick else ALL_STRATEGIES
-    heavy = ['sqlite', 'prefer_confirmed'] if quick else ['sqlite', 'prefer_confirmed', 'standard', 'random_draw']
-    ov2, ov3, ov4 = outcome_vectors(2, tier), outcome_vectors(3, tier), outcome_vectors(4, tier)
+    two = ['sqlite', 'prefer_confirmed']
+    three = ['sqlite', 'prefer_confirmed', 'random_draw']
+    four = ['sqlite', 'prefer_confirmed', 'standard', 'random_draw']
+    ov2, ov3 = outcome_vectors(2, tier), outcome_vectors(3, tier)
     mixed3 = ['hold', 'release', 'bcast_fail']
-    # ---- N = 2: everything, including cancellation combined with a late arrival
-    add(2, None, plain, ov2)
-    add(2, None, heavy, ov2, late=1)
-    add(2, None, heavy, ov2[:4] if quick else ov2, cancel=0)
-    add(2, ['n-1_equal', 'n_equal'] if quick else None, heavy,
-        [['hold', 'hold'], ['release', 'bcast_fail']] if quick else [['hold', 'hold'], ['release', 'bcast_fail'], ['hold', 'release']],
-        cancel=0, late=1)
-    # ---- N = 3
-    add(3, None, plain, ov3)
-    add(3, None, heavy, [mixed3, ['release'] * 3] if quick else ov3, late=2)
-    add(3, ['n-1_equal', 'n_equal', 'pairwise'] if quick else None, heavy, [mixed3] if quick else [mixed3, ['hold'] * 3, ['release'] * 3],
-        cancel=0)
-    # ---- N = 4
-    add(4, None, plain, ov4)
-    if not quick:
-        add(4, ['n-1_equal', 'n_equal', 'pairwise'], ['sqlite', 'prefer_confirmed'], [['release'] * 4], late=3)
-        add(4, ['n-1_equal', 'pairwise'], ['sqlite', 'prefer_confirmed'], [['release'] * 4], cancel=0)
-    # ---- N = 6, 12: bounded number of deviations from the default schedule
-    d = 1 if quick else 2
-    for n in (6, 12):
-        sets = ['n-1_equal', 'pairwise', 'big+dust'] if quick else None
-        add(n, sets, ['sqlite', 'prefer_confirmed'] if quick else heavy, outcome_vectors(n, tier), bound=d)
-        if n == 6 or not quick:
-            add(n, ['n-1_equal', 'pairwise'], ['sqlite', 'prefer_confirmed'], [outcome_vectors(n, tier)[1]], cancel=0, bound=1)
+    mixed4 = ['hold', 'release', 'bcast_fail', 'release']
+    if quick:
+        # ---- N = 2: everything, including cancellation combined with a late arrival
+        add(2, None, three, ov2)
+        add(2, None, two, ov2[:4], late=1)
+        add(2, ['n-1_equal', 'n_equal', 'pairwise'], two, ov2[:4], cancel=0)
+        add(2, ['n-1_equal', 'n_equal'], two, [['hold', 'hold'], ['release', 'bcast_fail']], cancel=0, late=1)
+        # ---- N = 3
+        add(3, None, two, ov3[:4])
+        add(3, ['n-1_equal', 'n_equal', 'pairwise'], two, [mixed3], late=2)
+        add(3, ['n-1_equal', 'pairwise'], two, [['release'] * 3], late=2)
+        add(3, ['n-1_equal', 'n_equal', 'pairwise'], two, [['hold'] * 3], cancel=0)
+        # ---- N = 4
+        add(4, None, three, [['release'] * 4])
+        add(4, ['n-1_equal', 'pairwise'], two, [['hold', 'hold', 'release', 'release']])
+        # ---- N = 6, 12: at most one deviation from the default schedule
+        add(6, ['n-1_equal', 'pairwise', 'big+dust'], two, [['release'] * 6], bound=1)
+        add(6, ['n-1_equal', 'pairwise'], two, [(mixed3 * 2)], bound=1)
+        add(6, ['n-1_equal', 'pairwise'], two, [(mixed3 * 2)], cancel=0, bound=1)
+        add(12, ['n-1_equal', 'pairwise', 'big+dust'], two, [['release'] * 12], bound=1)
+        add(12, ['big+dust'], two, [(mixed3 * 4)], bound=1)
+    else:
+        add(2, None, ALL_STRATEGIES, ov2)
+        add(2, None, four, ov2, late=1)
+        add(2, None, two, ov2, cancel=0)
+        add(2, None, two, [['hold', 'hold'], ['release', 'bcast_fail'], ['hold', 'release']], cancel=0, late=1)
+        add(3, None, four, ov3)
+        add(3, None, two, [mixed3, ['release'] * 3, ['hold'] * 3, ['release', 'release', 'bcast_fail']], late=2)
+        add(3, ['n-1_equal', 'n_equal', 'pairwise'], two, [mixed3], cancel=0)
+        add(3, None, two, [['hold'] * 3, ['release'] * 3], cancel=0)
+        add(3, ['n-1_equal'], two, [['release'] * 3], cancel=0, late=2)
+        add(4, None, four, [['release'] * 4, ['hold'] * 4, ['bcast_fail'] * 4])
+        add(4, ['n-1_equal', 'n_equal', 'pairwise'], two, [mixed4])
+        add(4, ['n-1_equal', 'pairwise'], two, [['release'] * 4], late=3)
+        add(4, ['n-1_equal'], two, [['release'] * 4], cancel=0)
+        add(6, None, two, [['release'] * 6, mixed3 * 2], bound=2)
+        add(6, ['n-1_equal', 'pairwise'], two, [mixed3 * 2], cancel=0, bound=1)
+        add(12, None, two, [['release'] * 12], bound=2)
+        add(12, ['n-1_equal', 'pairwise', 'big+dust'], two, [mixed3 * 4], bound=1)
+        add(12, ['n-1_equal'], two, [mixed3 * 4], cancel=0, bound=1)
     # ---- the same exploration without state pruning must agree (validation of the pruning)
-    add(2, ['n_equal', 'pairwise'] if quick else None, ['sqlite', 'prefer_confirmed'], [['hold', 'release'], ['bcast_fail', 'bcast_fail']],
-        cross_check=True)
-    add(2, ['n-1_equal'], ['sqlite', 'prefer_confirmed'], [['release', 'bcast_fail']], late=1, cross_check=True)
-    add(2, ['n_equal'], ['sqlite', 'prefer_confirmed'] if not quick else ['prefer_confirmed'], [['hold', 'release']], cancel=0,
-        cross_check=True)
+    add(2, ['n_equal', 'pairwise'] if quick else None, two, [['hold', 'release']], cross_check=True)
+    add(2, ['n_equal'], ['prefer_confirmed'] if quick else two, [['bcast_fail', 'bcast_fail']], cross_check=True)
+    add(2, ['n-1_equal'], two, [['release', 'bcast_fail']], late=1, cross_check=True)
+    add(2, ['n_equal'], ['prefer_confirmed'] if quick else two, [['hold', 'release']], cancel=0, cross_check=True)
     if not quick:
-        add(3, ['n_equal'], ['sqlite', 'prefer_confirmed'], [mixed3], cross_check=True)
+        add(3, ['n-1_equal'], two, [mixed3], cross_check=True)
         add(3, ['pairwise'], ['sqlite'], [['release'] * 3], late=2, cross_check=True)
     return cases
 
@@ -719,8 +755,8 @@ def run(ctx):
               'START, NET, CANCEL} (N<=4), or all with <= d deviations (N in {6,12}).  states = distinct canonical '
               'harness states (per-build phase and claims, is_reserved set, lock holders/waiters, job states).'),
         exhaustive=True,
-        bounds={'N_exhaustive': [2, 3, 4], 'N_bounded': {'6': 1 if ctx.quick else 2, '12': 1 if ctx.quick else 2},
-                'strategies': 3 if ctx.quick else 7, 'hashseed': ctx.hashseed},
+        bounds={'N_exhaustive': [2, 3, 4], 'N_bounded': {'6': 1 if ctx.quick else 2, '12': '1' if ctx.quick else '2 (1 with mixed outcomes)'},
+                'strategies': 3 if ctx.quick else 7, 'hashseed': ctx.hashseed, 'cases': len(cases)},
         bound_completed='all interleavings for N<=4; deviation bound %d for N in {6,12}' % (1 if ctx.quick else 2),
         assumptions=['executor job bodies (one sqlite transaction each) take effect atomically at an iteration boundary',
                      'a cancelled asyncio future drops the result of a job that already ran; a job that has not started '
